@@ -1,31 +1,111 @@
+// vsim is the simulation harness.  It is compiled inside the coraza module
+// namespace (through the build overlay) so that it can reach internal packages.
 package main
 
 import (
+	"encoding/json"
+	"flag"
 	"fmt"
-
-	coraza "github.com/corazawaf/coraza/v3"
-	"github.com/corazawaf/coraza/v3/verifrt"
-	"github.com/corazawaf/coraza/v3/verifrt/simos"
-	"github.com/corazawaf/coraza/v3/verifrt/sitetab"
+	"io"
+	"os"
+	"strconv"
 )
 
-func main() {
-	verifrt.Install(verifrt.NewWorld(1))
-	waf, err := coraza.NewWAF(coraza.NewWAFConfig().WithDirectives(`
-SecRuleEngine On
-SecRequestBodyAccess On
-SecRequestBodyInMemoryLimit 4
-SecRule ARGS_GET "@rx x" "id:1,phase:1,deny,t:lowercase"
-`))
-	if err != nil {
-		panic(err)
+func usage() {
+	fmt.Fprintln(os.Stderr, "usage: vsim run <ID> <quick|thorough> [flags] | replay <file> | selftest | list")
+	os.Exit(2)
+}
+
+func tierOf(s string) Tier {
+	if s == "thorough" {
+		return Thorough
 	}
-	tx := waf.NewTransaction()
-	tx.ProcessURI("/?a=x&b=2", "GET", "HTTP/1.1")
-	it := tx.ProcessRequestHeaders()
-	tx.WriteRequestBody([]byte("hello world"))
-	fmt.Println(it, tx.ID(), len(sitetab.Sites), simos.Disk().Files(), simos.Disk().Ops)
-	tx.ProcessLogging()
-	tx.Close()
-	fmt.Println(simos.Disk().Files(), len(simos.Disk().Ops))
+	return Quick
+}
+
+func main() {
+	raceLogPath = os.Getenv("VSIM_RACELOG")
+	if len(os.Args) < 2 {
+		usage()
+	}
+	switch os.Args[1] {
+	case "list":
+		for id := range checks {
+			fmt.Println(id)
+		}
+	case "run":
+		if len(os.Args) < 4 {
+			usage()
+		}
+		c := checks[os.Args[2]]
+		if c == nil {
+			fmt.Fprintln(os.Stderr, "unknown check", os.Args[2])
+			os.Exit(2)
+		}
+		tier := tierOf(os.Args[3])
+		fs := flag.NewFlagSet("run", flag.ExitOnError)
+		seed := fs.Uint64("seed", 1, "")
+		workers := fs.Int("workers", 16, "")
+		ev := fs.String("evidence", "/verif/evidence/"+c.ID+".json", "")
+		rp := fs.String("replays", "/verif/replays", "")
+		kn := fs.String("known", "/verif/known_findings.json", "")
+		sc := fs.String("scratch", os.TempDir(), "")
+		fs.Parse(os.Args[4:])
+		os.Exit(parentMain(c, tier, *seed, *workers, *ev, *rp, *kn, *sc))
+	case "worker":
+		a := os.Args[2:]
+		c := checks[a[0]]
+		seed, _ := strconv.ParseUint(a[2], 10, 64)
+		idx, _ := strconv.Atoi(a[3])
+		n, _ := strconv.Atoi(a[4])
+		runs, _ := strconv.Atoi(a[5])
+		maxSec, _ := strconv.Atoi(a[6])
+		workerMain(c, tierOf(a[1]), seed, idx, n, runs, maxSec, a[7])
+	case "replayjson":
+		c := checks[os.Args[2]]
+		var in struct {
+			Seed  uint64              `json:"seed"`
+			Tapes map[string][]uint32 `json:"tapes"`
+		}
+		b, _ := io.ReadAll(os.Stdin)
+		if err := json.Unmarshal(b, &in); err != nil {
+			fmt.Fprintln(os.Stderr, err)
+			os.Exit(2)
+		}
+		ro := replayOnce(c, tierOf(os.Args[3]), in.Seed, in.Tapes)
+		out, _ := json.Marshal(ro)
+		os.Stdout.Write(out)
+	case "replay":
+		b, err := os.ReadFile(os.Args[2])
+		if err != nil {
+			fmt.Fprintln(os.Stderr, err)
+			os.Exit(2)
+		}
+		var rf ReplayFile
+		if err := json.Unmarshal(b, &rf); err != nil {
+			fmt.Fprintln(os.Stderr, err)
+			os.Exit(2)
+		}
+		c := checks[rf.Property]
+		if c == nil {
+			fmt.Fprintln(os.Stderr, "unknown property", rf.Property)
+			os.Exit(2)
+		}
+		ro := replayOnce(c, tierOf(rf.Tier), rf.Seed, rf.Tapes)
+		sc, _ := json.MarshalIndent(ro.Scenario, "", " ")
+		fmt.Printf("scenario: %s\n", sc)
+		if v := hasFP(ro.Viol, rf.Fingerprint); v != nil {
+			fmt.Printf("REPRODUCED %s\n%s\n", v.Fingerprint, v.Detail)
+			fmt.Printf("VIOLATION property=%s replay=%s\n", rf.Property, os.Args[2])
+			os.Exit(1)
+		}
+		for _, v := range ro.Viol {
+			fmt.Printf("other violation: %s\n", v.Fingerprint)
+		}
+		fmt.Println("not reproduced")
+	case "selftest":
+		os.Exit(selftest(os.Args[2:]))
+	default:
+		usage()
+	}
 }
